@@ -117,6 +117,30 @@ def prop(spec, rec):
         require(np.array_equal(lp, bp0) and np.array_equal(lr, br0), "json_built_simulation_differs", lambda: "station %s: pilots/rates %r / %r after building through JSON, %r / %r directly" % (sid, lp, lr, bp0, br0))
     require({k: ev.energy_delivered for k, ev in loaded.ev_history.items()} == e0, "json_built_simulation_energies", "energies differ when the simulator is built through a JSON dump")
 
+    # ... and through a deep copy of the freshly built simulator (scheduler, network, queue and all)
+    if spec.get("deepcopy_path", True):
+        import copy
+
+        hc = sc.build_sim(spec)
+        with warnings.catch_warnings():
+            warnings.simplefilter("ignore")
+            csim = copy.deepcopy(hc.sim)
+        hcc = sc.Handle(spec, csim, csim.network, {}, csim.scheduler)
+        sc.run_sim(hcc)
+        require(not hc.sim.event_queue.empty() or not m.events, "deep_copy_shares_state_with_original", "running a deep copy consumed the original simulator's event queue")
+        cids = list(csim.network.station_ids)
+        for sid in m.station_ids:
+            cp, _ = trim(csim.pilot_signals[cids.index(sid)], W)
+            cr, _ = trim(csim.charging_rates[cids.index(sid)], W)
+            bp0, _ = trim(b[sid][0], W)
+            br0, _ = trim(b[sid][1], W)
+            require(np.array_equal(cp, bp0) and np.array_equal(cr, br0), "deep_copied_simulation_differs", lambda: "station %s: pilots/rates %r / %r when a deep copy of the fresh simulator is run, %r / %r directly" % (sid, cp, cr, bp0, br0))
+        require({k: ev.energy_delivered for k, ev in csim.ev_history.items()} == e0, "deep_copied_simulation_energies", "energies differ when a deep copy of the fresh simulator is run")
+        # the original is untouched by the copy's run and still gives the same result
+        sc.run_sim(hc)
+        require(np.array_equal(hc.sim.pilot_signals, base.sim.pilot_signals) and np.array_equal(hc.sim.charging_rates, base.sim.charging_rates), "deep_copy_shares_state_with_original", "the original simulator gives other results after its deep copy was run")
+        labels.add("deep_copy_path")
+
     # (2) incidental order
     perm = spec["perm"]
     hp = sc.build_sim(spec, station_order=perm["stations"], constraint_order=perm["constraints"], event_order=perm["events"])
